@@ -17,6 +17,18 @@ Lemma first_none r st : ends E r st = [] -> rx_first E r st = None.
 Proof. unfold rx_first. intros ->. reflexivity. Qed.
 
 (* ---------------------------------------------------------------- character facts *)
+Lemma idstart_word c : idstart u c = true -> Rx.is_word E c = true.
+Proof. unfold idstart. intro H. apply andb_true_iff in H. tauto. Qed.
+Lemma idstart_not_digit c : idstart u c = true -> Rx.is_digit E c = false.
+Proof. unfold idstart. intro H. apply andb_true_iff in H as [_ H]. destruct (Rx.is_digit E c); [discriminate | reflexivity]. Qed.
+Lemma word_neq c d : Rx.is_word E c = true -> Rx.is_word E d = false -> N.eqb c d = false.
+Proof. intros H1 H2. destruct (N.eqb c d) eqn:Hcd; [|reflexivity]. apply N.eqb_eq in Hcd. subst. congruence. Qed.
+Lemma word_not_ws c : Rx.is_word E c = true -> ws_char c = false.
+Proof.
+  intro H. unfold ws_char, g_ws. cbn [existsb].
+  rewrite !(word_neq c _ H) by reflexivity. reflexivity.
+Qed.
+(* ASCII identifiers [A-Za-z_][A-Za-z0-9_]* are identifiers for every classification *)
 Lemma alpha_word c : is_alpha c = true -> Rx.is_word E c = true.
 Proof. unfold is_alpha, Rx.is_word, in_range. intro H. destruct (N.ltb c 128) eqn:Hc; lia. Qed.
 Lemma alpha_not_digit c : is_alpha c = true -> Rx.is_digit E c = false.
@@ -26,10 +38,14 @@ Proof.
   unfold RrelSyntax.is_word, is_alpha, RrelSyntax.is_digit, Rx.is_word, in_range. intro H.
   destruct (N.ltb c 128) eqn:Hc; lia.
 Qed.
-Lemma alpha_neq c d : is_alpha c = true -> is_alpha d = false -> N.eqb c d = false.
-Proof. intros H1 H2. destruct (N.eqb c d) eqn:Hcd; [|reflexivity]. apply N.eqb_eq in Hcd. subst. congruence. Qed.
-Lemma alpha_not_ws c : is_alpha c = true -> ws_char c = false.
-Proof. unfold is_alpha, ws_char, g_ws. cbn [existsb]. intro H. lia. Qed.
+Definition ident_ascii (s : list N) : bool :=
+  match s with c :: r => (is_alpha c && forallb RrelSyntax.is_word r)%bool | [] => false end.
+Lemma ident_ascii_ident s : ident_ascii s = true -> ident u s = true.
+Proof.
+  destruct s as [|c r]; [discriminate|]. cbn [ident_ascii ident]. intro H. apply andb_true_iff in H as [Hc Hr].
+  unfold idstart. rewrite (alpha_word c Hc), (alpha_not_digit c Hc). cbn [andb negb].
+  apply forallb_forall. intros x Hx. apply word_word. rewrite forallb_forall in Hr. apply Hr. exact Hx.
+Qed.
 
 Lemma set_word c : set_mem E c [ICat false CWord] = Rx.is_word E c.
 Proof. rewrite set_mem_plain by exact Hic. cbn [existsb item_match cat_match]. destruct (Rx.is_word E c); reflexivity. Qed.
@@ -74,21 +90,21 @@ Proof.
   - exists d, (m ++ pre). split; [reflexivity|]. apply in_rev. rewrite Hr. left. reflexivity.
 Qed.
 
-Lemma first_id pre c s rest : is_alpha c = true -> forallb RrelSyntax.is_word s = true ->
+Lemma first_id pre c s rest : idstart u c = true -> forallb (Rx.is_word E) s = true ->
   stops (Rx.is_word E) rest ->
   rx_first E rx_rrel_id (pre, (c :: s) ++ rest) = Some (rev s ++ c :: pre, rest).
 Proof.
   intros Hc Hs Hstop. unfold rx_rrel_id. cbn [app].
   eapply first_seq.
-  { unfold rx_first. rewrite ends_set. cbn [xorb]. rewrite set_idstart, (alpha_not_digit c Hc), (alpha_word c Hc). reflexivity. }
+  { unfold rx_first. rewrite ends_set. cbn [xorb]. rewrite set_idstart, (idstart_not_digit c Hc), (idstart_word c Hc). reflexivity. }
   eapply first_seq.
   { apply first_star_set.
-    - apply forallb_forall. intros x Hx. rewrite xorb_false_l, set_word. apply word_word.
+    - apply forallb_forall. intros x Hx. rewrite xorb_false_l, set_word.
       rewrite forallb_forall in Hs. apply Hs. exact Hx.
     - destruct rest as [|d rest']; [exact I|]. cbn [stops] in *. rewrite xorb_false_l, set_word. exact Hstop. }
   unfold rx_first. cbn [ends]. unfold word_boundary. cbn [fst snd xorb].
   assert (Hw : forall x, In x (c :: s) -> Rx.is_word E x = true).
-  { intros x [<-|Hx]; [apply alpha_word; exact Hc|]. apply word_word. rewrite forallb_forall in Hs. apply Hs. exact Hx. }
+  { intros x [<-|Hx]; [apply idstart_word; exact Hc|]. rewrite forallb_forall in Hs. apply Hs. exact Hx. }
   change (rev s ++ c :: pre) with (rev s ++ [c] ++ pre). rewrite app_assoc.
   change (rev s ++ [c]) with (rev (c :: s)).
   destruct (rev_head_in (c :: s) pre) as [d [m [Hd Hin]]]; [discriminate|]. rewrite Hd.
@@ -255,13 +271,13 @@ Proof.
   rewrite take_match_app. apply strip_ends_wrap.
 Qed.
 
-Lemma first_tok_id pre s rest : ident s = true -> stops (Rx.is_word E) rest ->
+Lemma first_tok_id pre s rest : ident u s = true -> stops (Rx.is_word E) rest ->
   exists pre', first_tok u pre (r_tok (TId s) ++ rest) = Some (TId s, (pre', rest)).
 Proof.
   intros Hid Hstop. cbn [r_tok]. destruct s as [|c s]; [discriminate|].
   cbn [ident] in Hid. apply andb_true_iff in Hid as [Hc Hs].
   unfold first_tok. cbn [app].
-  rewrite flags_none by (apply alpha_neq; [exact Hc | reflexivity]).
+  rewrite flags_none by (apply word_neq; [apply idstart_word; exact Hc | reflexivity]).
   pose proof (first_id pre c s rest Hc Hs Hstop) as H. cbn [app] in H. rewrite H. cbn [snd].
   eexists. f_equal. f_equal. f_equal.
   change (c :: s ++ rest) with ((c :: s) ++ rest). apply take_match_app.
@@ -306,13 +322,13 @@ Proof.
   rewrite Hp. reflexivity.
 Qed.
 
-Lemma first_tok_ok pre t rest : tok_ok t = true -> sep_ok t rest ->
+Lemma first_tok_ok pre t rest : tok_ok u t = true -> sep_ok t rest ->
   exists pre', first_tok u pre (r_tok t ++ rest) = Some (t, (pre', rest)).
 Proof.
   intros Hok Hsep. destruct t as [s | f q | n | | | | | | | fl]; cbn [tok_ok sep_ok] in *.
   - apply first_tok_id; assumption.
   - apply andb_true_iff in Hok as [Hq Hf]. apply first_tok_str; assumption.
-  - apply first_tok_dots; [|assumption]. destruct (Nat.eqb n 0); [discriminate | reflexivity].
+  - apply first_tok_dots; [|assumption]. unfold nonzero in Hok. destruct (Nat.eqb n 0); [discriminate | reflexivity].
   - eexists. apply first_tok_punct; reflexivity.
   - eexists. apply first_tok_punct; reflexivity.
   - eexists. apply first_tok_punct; reflexivity.
@@ -323,15 +339,15 @@ Proof.
 Qed.
 
 (* the first character of a token's text *)
-Lemma r_tok_head t : tok_ok t = true ->
+Lemma r_tok_head t : tok_ok u t = true ->
   exists c m, r_tok t = c :: m /\ ws_char c = false /\
               (cls t <> 1 -> Rx.is_word E c = false) /\ (cls t <> 2 -> is_dot c = false).
 Proof.
   intro Hok. destruct t as [s | f q | n | | | | | | | fl]; cbn [tok_ok r_tok cls] in *;
     try (eexists _, _; split; [reflexivity|]; split; [reflexivity|]; split; intros _; reflexivity).
   - destruct s as [|c s]; [discriminate|]. cbn [ident] in Hok. apply andb_true_iff in Hok as [Hc _].
-    exists c, s. split; [reflexivity|]. split; [apply alpha_not_ws; exact Hc|].
-    split; [intro H; exfalso; apply H; reflexivity|]. intros _. apply alpha_neq; [exact Hc | reflexivity].
+    exists c, s. split; [reflexivity|]. split; [apply word_not_ws, idstart_word; exact Hc|].
+    split; [intro H; exfalso; apply H; reflexivity|]. intros _. apply word_neq; [apply idstart_word; exact Hc | reflexivity].
   - apply andb_true_iff in Hok as [Hq _]. unfold c_squote, c_dquote in Hq.
     apply orb_true_iff in Hq as [Hq|Hq]; apply N.eqb_eq in Hq; subst q;
       (eexists _, _; split; [reflexivity|]; split; [reflexivity|]; split; intros _; reflexivity).
@@ -340,10 +356,10 @@ Proof.
     intro H. exfalso. apply H. reflexivity.
 Qed.
 
-Lemma r_tok_len t : tok_ok t = true -> 1 <= length (r_tok t).
+Lemma r_tok_len t : tok_ok u t = true -> 1 <= length (r_tok t).
 Proof. intro H. destruct (r_tok_head t H) as [c [m [-> _]]]. cbn [length]. lia. Qed.
 
-Lemma sep_of_clash t t2 x : tok_ok t2 = true -> clash (cls t) (cls t2) = false -> sep_ok t (r_tok t2 ++ x).
+Lemma sep_of_clash t t2 x : tok_ok u t2 = true -> clash (cls t) (cls t2) = false -> sep_ok t (r_tok t2 ++ x).
 Proof.
   intros Hok Hcl. destruct (r_tok_head t2 Hok) as [c [m [-> [_ [Hw Hd]]]]]. cbn [app].
   destruct t; cbn [sep_ok cls stops] in *; try exact I.
@@ -353,7 +369,7 @@ Qed.
 
 (* ---------------------------------------------------------------- a token sequence *)
 Lemma lex_render : forall ts p fuel pre,
-  forallb tok_ok ts = true -> adj_from p ts = true -> length (render ts) < fuel ->
+  forallb (tok_ok u) ts = true -> adj_from p ts = true -> length (render ts) < fuel ->
   lex_rx u fuel pre (render ts) = Some ts.
 Proof.
   induction ts as [|t r IH]; intros p fuel pre Hall Hadj Hfuel.
@@ -373,7 +389,7 @@ Proof.
     rewrite (IH (cls t) f pre' Hr Hadj) by lia. reflexivity.
 Qed.
 
-Theorem lex_text_render ts : toks_ok ts = true -> lex_text u (render ts) = Some ts.
+Theorem lex_text_render ts : toks_ok u ts = true -> lex_text u (render ts) = Some ts.
 Proof.
   unfold toks_ok, lex_text. intro H. apply andb_true_iff in H as [Hall Hadj].
   apply (lex_render ts 0); [exact Hall | exact Hadj | lia].
